@@ -3,6 +3,7 @@ package main
 
 import (
 	"bytes"
+	"flag"
 	"fmt"
 	"go/ast"
 	"go/format"
@@ -152,6 +153,21 @@ func (r *rw) block(list []ast.Stmt, depth int) []ast.Stmt {
 				continue
 			}
 		}
+		if gs, ok := s.(*ast.GoStmt); ok {
+			if fl, isLit := gs.Call.Fun.(*ast.FuncLit); isLit && len(gs.Call.Args) == 0 {
+				fl.Body.List = r.block(fl.Body.List, 0)
+				r.n++
+				site := fmt.Sprintf("%s:%s#go%d", r.file, r.fn, r.n)
+				if depth == 0 {
+					out = append(out, r.gate())
+				}
+				out = append(out, &ast.ExprStmt{X: &ast.CallExpr{
+					Fun:  &ast.SelectorExpr{X: ast.NewIdent("simcore"), Sel: ast.NewIdent("Go")},
+					Args: []ast.Expr{&ast.BasicLit{Kind: token.STRING, Value: strconv.Quote(site)}, fl},
+				}})
+				continue
+			}
+		}
 		// recurse into nested bodies first
 		r.nested(s, depth)
 		if depth == 0 && headerTrigger(s) {
@@ -233,15 +249,27 @@ func (r *rw) nested(s ast.Stmt, depth int) {
 
 var modeB bool
 
+const simcorePath = "github.com/apache/skywalking-banyandb/pkg/verif/simcore"
+
 func main() {
-	in, out, imp := os.Args[1], os.Args[2], os.Args[3]
-	modeB = len(os.Args) > 4 && os.Args[4] == "B"
+	in := flag.String("in", "", "input go file")
+	out := flag.String("out", "", "output go file")
+	name := flag.String("name", "", "name used in gate sites (repo-relative path)")
+	mode := flag.String("mode", "A", "A: gates outside critical sections; B: cooperative locks, gates everywhere")
+	flag.Bool("locksonly", false, "unused")
+	flag.Parse()
+	modeB = *mode == "B"
 	fset := token.NewFileSet()
-	f, err := parser.ParseFile(fset, in, nil, parser.ParseComments)
+	f, err := parser.ParseFile(fset, *in, nil, parser.ParseComments)
 	if err != nil {
-		panic(err)
+		fmt.Fprintln(os.Stderr, err)
+		os.Exit(1)
 	}
-	r := &rw{fset: fset, file: filepath.Base(in)}
+	site := *name
+	if site == "" {
+		site = filepath.Base(*in)
+	}
+	r := &rw{fset: fset, file: filepath.Base(site)}
 	for _, d := range f.Decls {
 		fd, ok := d.(*ast.FuncDecl)
 		if !ok || fd.Body == nil {
@@ -251,20 +279,36 @@ func main() {
 		r.n = 0
 		fd.Body.List = r.block(fd.Body.List, 0)
 	}
-	// add import
-	f.Imports = append(f.Imports, nil)[:len(f.Imports)]
-	for _, d := range f.Decls {
-		if gd, ok := d.(*ast.GenDecl); ok && gd.Tok == token.IMPORT {
-			gd.Specs = append(gd.Specs, &ast.ImportSpec{Name: ast.NewIdent("simcore"), Path: &ast.BasicLit{Kind: token.STRING, Value: strconv.Quote(imp)}})
-			break
-		}
-	}
 	var buf bytes.Buffer
 	if err := format.Node(&buf, fset, f); err != nil {
-		panic(err)
+		fmt.Fprintln(os.Stderr, err)
+		os.Exit(1)
 	}
-	if err := os.WriteFile(out, buf.Bytes(), 0o644); err != nil {
-		panic(err)
+	text := buf.Bytes()
+	if bytes.Contains(text, []byte("simcore.")) {
+		// add the import only when the rewritten file uses it
+		done := false
+		for _, d := range f.Decls {
+			if gd, ok := d.(*ast.GenDecl); ok && gd.Tok == token.IMPORT {
+				gd.Specs = append(gd.Specs, &ast.ImportSpec{Name: ast.NewIdent("simcore"), Path: &ast.BasicLit{Kind: token.STRING, Value: strconv.Quote(simcorePath)}})
+				done = true
+				break
+			}
+		}
+		if !done {
+			gd := &ast.GenDecl{Tok: token.IMPORT, Specs: []ast.Spec{&ast.ImportSpec{Name: ast.NewIdent("simcore"), Path: &ast.BasicLit{Kind: token.STRING, Value: strconv.Quote(simcorePath)}}}}
+			f.Decls = append([]ast.Decl{gd}, f.Decls...)
+		}
+		buf.Reset()
+		if err := format.Node(&buf, fset, f); err != nil {
+			fmt.Fprintln(os.Stderr, err)
+			os.Exit(1)
+		}
+		text = buf.Bytes()
 	}
-	fmt.Printf("gaterw: %s: %d gates\n", in, r.gates)
+	if err := os.WriteFile(*out, text, 0o644); err != nil {
+		fmt.Fprintln(os.Stderr, err)
+		os.Exit(1)
+	}
+	fmt.Printf("gaterw: %s: gates %d\n", site, r.gates)
 }
